@@ -17,14 +17,14 @@ impl Monitor for C17 {
     }
     fn run(&self, _ctx: &mut Ctx) {}
     fn judge(&self, case: &Case, _st: &mut Stats) -> Verdict {
-        // replay shows the all-features outcome; the differing configuration is named in the replay file
+        // replay shows the default-build outcome; the differing configuration is named in the replay file
         let o = sut::call(case.ev, &case.exprs[0], &case.phs[0]);
-        println!("all-features build: {}", o.show());
+        println!("default build: {}", o.show());
         println!("to reproduce the other side: cd /verif/harness/probes && cargo run --offline --no-default-features --features <subset> --bin scv_feat <corpus>");
         Verdict::Skip("feature-subset builds are re-run by ./check C17")
     }
     fn rule(&self) -> &'static str {
-        "all 31 non-empty subsets of {eval_f64, eval_i64, eval_decimal, eval_complex, eval_number} (exhaustive in the configuration dimension): each is built with cargo --no-default-features --features <subset> through a probe crate whose features forward one-to-one; the build must succeed with `use string_calculator::eval_X` for every selected evaluator (plus Number with eval_number, ParseError always), one unselected evaluator per subset must be an unresolved import, and a corpus (every function spelling, the precedence skeletons that exercise the cfg-gated operator categories, magnitude bombs, random and mutated expressions with hostile placeholders) is run in every configuration and each outcome (Ok bits or Err variant and message, or panic) compared with the all-features build; evaluations = (configuration, call) outcomes compared; non-trivial = those in a proper subset; distinct by construction"
+        "all 31 non-empty subsets of {eval_f64, eval_i64, eval_decimal, eval_complex, eval_number} (exhaustive in the configuration dimension): each is built with cargo --no-default-features --features <subset> through a probe crate whose features forward one-to-one; the build must succeed with `use string_calculator::eval_X` for every selected evaluator (plus Number with eval_number, ParseError always), one unselected evaluator per subset must be an unresolved import, and a corpus (every function spelling, the precedence skeletons that exercise the cfg-gated operator categories, magnitude bombs, random and mutated expressions with hostile placeholders) is run in every configuration and each outcome (Ok bits or Err variant and message, or panic) compared with the default build (the crate's own `default` feature list, dependency features included; the five evaluator features spelled out are subset 31); the corpus includes arithmetic and elementary functions on long random operands, where the algorithms the dependencies were built with show in the last digits; evaluations = (configuration, call) outcomes compared; non-trivial = those in a proper subset; distinct by construction"
     }
     fn assumptions(&self) -> Vec<&'static str> {
         vec!["the build and export sub-claims are compile-time facts: the toolchain's verdict per configuration is the observed event", "the plain crate is built (verification hooks off)"]
